@@ -157,16 +157,18 @@ def check(tier):
     core.check_coverage(res)
     run.add_tlc(res, "Tagging exhaustive: 4 defaults x 3 keywords x 4 classes x 5 positions x 5 kinds, + 96 automatic-tagging points")
     cases = res.printed("CASE")
-    if len([c for c in cases if c["t"] == "tag"]) != 960 or len([c for c in cases if c["t"] == "auto"]) != 96:
-        raise ToolError(f"expected 960 legal tag points and 96 automatic-tagging points, model gave {len(cases)}")
+    if len([c for c in cases if c["t"] == "tag"]) != 960 or len([c for c in cases if c["t"] == "auto"]) != 96 or len([c for c in cases if c["t"] == "xtag"]) != 108:
+        raise ToolError(f"expected 960 legal tag points, 96 automatic-tagging points and 108 cross-module points, model gave {len(cases)}")
+    run.cov["cross_module_points"] = 108
     # each listed deviation must be refuted by the model's invariants (non-vacuity): the
     # deviation models live in MC_C03_dev.tla
     for d in ALL_DEVS:
         neg = core.tlc("mc/MC_C03_dev.tla", f"mc/MC_C03_{d}.cfg", workers=2, expect_violation=True, timeout=300)
         run.cov.setdefault("deviation_models_refuted", {})[d] = neg.violated
-    # mix the module defaults within every batch (TLC emits the cases grouped by module default)
+    # mix the module defaults within every batch (TLC emits the cases grouped by module default); cross-module points last
     import random
     random.Random(core.seed()).shuffle(cases)
+    cases.sort(key=lambda c: c["t"] == "xtag")
     # encoding level: rasn's DER bytes for a value of every (quick: every 6th) tag point's type
     der_events = der_probe(run, cases, 6 if tier == "quick" else 1)
     events = drive_and_validate(run, cases, shards=4, more_events=der_events)
@@ -193,9 +195,9 @@ def check(tier):
 def replay(payload):
     run = Run("C03", "quick")
     ev = payload["event"]
-    keys = ("t", "md", "pat", "cont", "nested", "automatic") if ev.get("ev") == "auto" else ("t", "md", "kw", "cls", "pos", "kind", "explicit")
-    case = {k: ev[k] for k in keys}
-    case["t"] = "auto" if ev.get("ev") == "auto" else "tag"
+    keys = ("t", "md", "pat", "cont", "nested", "automatic") if ev.get("ev") == "auto" else ("t", "md", "md2", "via", "kw", "cls", "pos", "kind", "explicit")
+    case = {k: ev[k] for k in keys if k in ev}
+    case["t"] = "auto" if ev.get("ev") == "auto" else ("xtag" if "via" in ev else "tag")
     # the tag number is derived from the case index: replay the case at the same index
     cases = [dict(case) for _ in range(ev["k"] + 1)]
     events = drive_and_validate(run, cases[-1:] if ev.get("ev") == "auto" else cases, shards=1)
